@@ -572,7 +572,7 @@ class Check(common.Check):
         return spec
 
     SUBT = None
-    BUNDLE_DAMAGE = False     # damaged bundles (element sizes) belong to C18's hostile stream (repair D1)
+    BUNDLE_DAMAGE = True      # damaged bundles too (the element size is validated since repair D1)
 
     def gen_one(self, rng):
         r = rng.random()
